@@ -60,7 +60,8 @@ structure R where
   pops : Nat := 0
   earlyBc : Nat := 0                   -- unlocked broadcasts already performed whose record is still to come
 
-abbrev M := Except String
+/-- errors + a budget of alternatives that survives failed branches -/
+abbrev M := ExceptT String (StateM Nat)
 
 def ev (e : Event) (r : R) : M R :=
   match step repaired r.s e with
@@ -230,11 +231,11 @@ def stepRec (c : Rec) (r : R) : M R := do
 def firstOk {α} : List (Unit → M α) → M α
   | [] => throw "no alternative"
   | [f] => f ()
-  | f :: fs => match f () with
-    | .ok a => .ok a
-    | .error e => match firstOk fs with
-      | .ok a => .ok a
-      | .error _ => .error e
+  | f :: fs => tryCatch (f ()) fun e => do
+    let b ← get
+    if b = 0 then throw e
+    set (b - 1)
+    tryCatch (firstOk fs) fun _ => throw e
 
 /-- the unlocked broadcast after a record: if a worker sits between `bw` and the enqueue, try
     "missed" first, then "reached" -/
@@ -258,9 +259,8 @@ def signalAlts (r : R) : M (List (Unit → M R)) := do
 def replay : List Rec → Nat → R → M R
   | [], _, r => flush r
   | c :: rest, k, r =>
-    let wrap (e : M R) : M R := match e with
-      | .ok a => .ok a
-      | .error m => if m.startsWith "@" then .error m else .error s!"@{k} {c.thread}.{c.code}: {m}"
+    let wrap (e : M R) : M R :=
+      tryCatch e fun m => throw (if m.startsWith "@" then m else s!"@{k} {c.thread}.{c.code}: {m}")
     if c.code == "as" && (workerIdx c.thread).isNone then
       wrap (do
         let alts ← signalAlts r
@@ -272,22 +272,22 @@ def replay : List Rec → Nat → R → M R
         let consumed : List (Unit → M R) :=
           if r1.earlyBc > 0 then [fun _ => pure { r1 with earlyBc := r1.earlyBc - 1 }] else []
         -- repetitions of a polling record: the first one decides, the others are idempotent
-        firstOk ((bcastAlts r1 ++ consumed).map fun f => fun u => do
+        firstOk ((consumed ++ bcastAlts r1).map fun f => fun u => do
           let r2 ← f u
           let r3 ← if c.rep > 1 then do let r3 ← stepRec c r2; bcastAll r3 else pure r2
           replay rest (k + 1) r3))
-    else if c.code == "aw" && rest.any (fun d => d.code == "bc" || d.bc) then
-      -- a worker returns from Wait: normally it was woken before; otherwise by an unlocked Broadcast
-      -- whose record (written after the call) is still to come
-      wrap (firstOk ((fun _ => do let r' ← stepRec c r; replay rest (k + 1) r') ::
-        (bcastAlts r).map fun f => fun u => do
+    else if c.code == "aw" && (match workerIdx c.thread with
+        | some i => pcOf r i != .woken && rest.any (fun d => d.code == "bc" || d.bc)
+        | none => false) then
+      -- a worker returns from Wait although nothing woke it yet: an unlocked Broadcast whose record
+      -- (written after the call) is still to come
+      wrap (firstOk ((bcastAlts r).reverse.map fun f => fun u => do
           let r1 ← f u
           let r2 ← stepRec c { r1 with earlyBc := r1.earlyBc + 1 }
           replay rest (k + 1) r2))
-    else
-      match wrap (stepRec c r) with
-      | .ok r' => replay rest (k + 1) r'
-      | .error m => .error m
+    else do
+      let r' ← wrap (stepRec c r)
+      replay rest (k + 1) r'
 
 def stuckIn (s : State) : Bool :=
   !s.queue.isEmpty && 0 < s.live && (internalEvents s).all fun e => (step repaired s e).isNone
@@ -309,7 +309,7 @@ def runCase (line : String) : String :=
     match (trace.splitOn ",").mapM parseRec with
     | none => "bad-trace"
     | some recs =>
-      match replay recs 0 { s := init } with
+      match ((replay recs 0 { s := init }).run.run 3000).1 with
       | .ok r =>
         monitors r ++ s!"\tvalid=1\tevents={recs.length}" ++ (if r.wakes > 0 && r.pops > 0 then "\tnt=1" else "")
       | .error m => "INVALID " ++ m
